@@ -12,6 +12,7 @@ import (
 	"net/http/httptest"
 	"runtime"
 	"runtime/debug"
+	"strings"
 	"sync"
 	"testing"
 
@@ -141,7 +142,12 @@ func c07Server(c *c07Case) *c07Obs {
 	}}
 	srv := httpgrpc.NewServer()
 	srv.RegisterService(newServiceDesc(), svc)
-	req := httptest.NewRequest("POST", "http://verif.test"+mBidi, bodyReader(c.Body, c.Abrupt, c.Chop))
+	method := mBidi
+	if c.Side == "server-ss" {
+		// a method that takes exactly one request message: the decoder also has to see that the body ends there
+		method = mServerStream
+	}
+	req := httptest.NewRequest("POST", "http://verif.test"+method, bodyReader(c.Body, c.Abrupt, c.Chop))
 	req.Header.Set("Content-Type", httpgrpc.StreamRpcContentType_V1)
 	req.ContentLength = -1
 	w := httptest.NewRecorder()
@@ -174,7 +180,7 @@ func propC07(c c07Case) *Outcome {
 	ref := refDecode(c.Body)
 	c07Serial.Lock()
 	run := func() *c07Obs {
-		if c.Side == "server" {
+		if strings.HasPrefix(c.Side, "server") {
 			return c07Server(&c)
 		}
 		return c07Client(&c)
@@ -222,9 +228,17 @@ func propC07(c c07Case) *Outcome {
 			return o.failf("%s: delivered message %d differs from frame %d", c.Side, i, i)
 		}
 	}
-	if c.Side == "server" {
+	if strings.HasPrefix(c.Side, "server") {
 		// a request stream ends at a clean EOF on a frame boundary
 		cleanEnd := ref.Err == errRefNoTrailer && !c.Abrupt
+		if c.Side == "server-ss" && len(ref.Frames) > 1 {
+			// more than the one request the method takes: reported as an error, so no clean end may be reported
+			// and nothing obliges the decoder to accept the body
+			if obs.Final.EOF {
+				return o.failf("server-ss: body holds %d frames for a method that takes one request, yet RecvMsg reported a clean end of stream after %d message(s)", len(ref.Frames), len(obs.Msgs))
+			}
+			return o
+		}
 		if obs.Final.EOF {
 			if !cleanEnd {
 				return o.failf("server: request body is malformed or cut (ref: %v, abrupt=%v) yet RecvMsg reported a clean end of stream", ref.Err, c.Abrupt)
@@ -274,7 +288,7 @@ func propC07(c c07Case) *Outcome {
 var hostilePrefixes = [][]byte{{0, 0, 0, 0}, {0xff, 0xff, 0xff, 0xff}, {0x80, 0, 0, 0}, {0x7f, 0xff, 0xff, 0xff}, {0x06, 0x40, 0x00, 0x00}, {0x06, 0x40, 0x00, 0x01}, {0x06, 0x3f, 0xff, 0xff},
 	{0xf9, 0xc0, 0x00, 0x00}, {0xf9, 0xbf, 0xff, 0xff}, {0x80, 0, 0, 1}, {0, 0, 0, 1}, {0xff, 0xff, 0xff, 0xfe}}
 
-func genC07Body(t *rapid.T, forServer bool) ([]byte, string) {
+func genC07Body(t *rapid.T, forServer bool, single ...bool) ([]byte, string) {
 	switch rapid.IntRange(0, 9).Draw(t, "origin") {
 	case 0:
 		return rapid.SliceOfN(rapid.Byte(), 0, 64).Draw(t, "raw"), "raw-bytes"
@@ -284,6 +298,10 @@ func genC07Body(t *rapid.T, forServer bool) ([]byte, string) {
 	}
 	// valid encoding of a message list (+ trailer for replies), then mutated
 	n := rapid.IntRange(0, 5).Draw(t, "nmsgs")
+	if len(single) > 0 && single[0] {
+		// a method that takes exactly one request: bodies of one frame (plus whatever the mutation adds) matter most
+		n = rapid.SampledFrom([]int{0, 1, 1, 1, 1, 2}).Draw(t, "nmsgs1")
+	}
 	var msgs []proto.Message
 	for i := 0; i < n; i++ {
 		msgs = append(msgs, genMsg(t, "m", 600).Build())
@@ -334,10 +352,10 @@ func genC07Body(t *rapid.T, forServer bool) ([]byte, string) {
 }
 
 func genC07(t *rapid.T) c07Case {
-	c := c07Case{Side: rapid.SampledFrom([]string{"client-ss", "client-ss", "client-cs", "server", "server"}).Draw(t, "side"), Abrupt: rapid.IntRange(0, 3).Draw(t, "abrupt") == 0}
+	c := c07Case{Side: rapid.SampledFrom([]string{"client-ss", "client-ss", "client-cs", "server", "server", "server-ss"}).Draw(t, "side"), Abrupt: rapid.IntRange(0, 3).Draw(t, "abrupt") == 0}
 	c.Chop = rapid.SampledFrom([]int{0, 0, 0, 1, 2, 3, 5, 7}).Draw(t, "chop")
-	c.MaxRecv = c.Side != "server" && rapid.IntRange(0, 3).Draw(t, "maxrecv") == 0
-	c.Body, c.Origin = genC07Body(t, c.Side == "server")
+	c.MaxRecv = !strings.HasPrefix(c.Side, "server") && rapid.IntRange(0, 3).Draw(t, "maxrecv") == 0
+	c.Body, c.Origin = genC07Body(t, strings.HasPrefix(c.Side, "server"), c.Side == "server-ss")
 	return c
 }
 
@@ -390,7 +408,7 @@ func recordReplyBody(s *Script) []byte {
 
 func init() { registerReplay("C07", propC07) }
 
-const c07Rule = "bodies fed to the client stream decoder (server-streaming and single-response) through a replaying RoundTripper and to the server stream decoder through httptest: rapid byte strings, hostile 4-byte prefixes (0, -1, MinInt32, MaxInt32, limit, limit+-1), valid encodings of generated message lists + trailer mutated by truncation / bit flip / spliced hostile prefix / trailing garbage / missing trailer, " +
+const c07Rule = "bodies fed to the client stream decoder (server-streaming and single-response) through a replaying RoundTripper and to the server stream decoder through httptest (a bidi method and a method that takes exactly one request): rapid byte strings, hostile 4-byte prefixes (0, -1, MinInt32, MaxInt32, limit, limit+-1), valid encodings of generated message lists + trailer mutated by truncation / bit flip / spliced hostile prefix / trailing garbage / missing trailer, " +
 	"and every truncation offset of 8 recorded real replies, each ending cleanly (io.EOF) and abruptly (io.ErrUnexpectedEOF), delivered whole or at most 1..7 bytes per Read; oracle = independent reference decoder (delivered messages are an intact prefix of the reference frames; success iff the reference sees a complete OK reply; reference error => SUT error), no panic, TotalAlloc delta <= 100 MiB limit + 8*len(body) + 6 MiB; " +
 	"non-trivial = body with >=1 complete frame that is not a complete valid OK stream, or an oversized prefix, or a cut inside a frame; distinct by case hash"
 
@@ -434,11 +452,14 @@ func FuzzClientBody(f *testing.F) {
 	})
 }
 
-// FuzzServerBody: coverage-guided search over request bodies.
+// FuzzServerBody: coverage-guided search over request bodies (flags: bit0 abrupt, bit1 method that takes one request).
 func FuzzServerBody(f *testing.F) {
 	c07FuzzSeeds(f)
 	f.Fuzz(func(t *testing.T, body []byte, flags byte) {
 		c := c07Case{Side: "server", Body: body, Abrupt: flags&1 != 0, Chop: int(flags>>2) & 7, Origin: "native-fuzz"}
+		if flags&2 != 0 {
+			c.Side = "server-ss"
+		}
 		if o := propC07(c); o.Fail != "" {
 			t.Fatalf("C07: %s", o.Fail)
 		}
